@@ -35,8 +35,9 @@ type outcome struct {
 	distinct []string // txids of fully checked transactions
 	sample   map[string]interface{}
 	incon    []string
-	newState *state // balance after a successful, applied send (for chained steps)
-	hang     bool
+	newState *state    // balance after a successful, applied send (for chained steps)
+	tx       *reftx.Tx // the transaction a payment run wrote (decoded)
+	txFile   string
 }
 
 func (o *outcome) v(class, what string, extra map[string]interface{}) {
